@@ -6,7 +6,7 @@ const hx_script *hx_cur_script = NULL;
 static htp_connp_t *hx_connp = NULL;
 
 const char *const hx_cba_names[] = { "NONE", "DECLINED", "STOP", "ERROR", "REGHOOKS", "DESTROY_OTHER", "DESTROY_SELF" };
-const char *const hx_site_names[HX_SITE__MAX] = { "?", "RES_HDR_LFCR", "RES_COMPLETE_EARLY_DATA_OTHER", "DECOMP_RESTART", "RES_LINE_AS_BODY" };
+const char *const hx_site_names[HX_SITE__MAX] = { "?", "RES_HDR_LFCR", "RES_COMPLETE_EARLY_DATA_OTHER", "DECOMP_RESTART", "RES_LINE_AS_BODY", "REQ_FINALIZE_AS_BODY", "RES_FINALIZE_AS_BODY" };
 
 void hx_verdict_add(const char *prop, const char *kind, const char *fmt, ...) {
     hx_obs *o = hx_cur;
@@ -89,7 +89,7 @@ static void monitor_cb(hx_txrec *r, htp_tx_t *tx, int kind, const uint8_t *data,
 
     int side, rk = rank_of(kind, &side);
     int is_raw = (kind == CB_REQ_HEADER_DATA || kind == CB_REQ_TRAILER_DATA || kind == CB_RES_HEADER_DATA || kind == CB_RES_TRAILER_DATA);
-    int is_marker = ((kind == CB_REQ_BODY || kind == CB_RES_BODY || kind == CB_REQ_BODY_TX || kind == CB_RES_BODY_TX) && has_data && data == NULL && len == 0);
+    int is_marker = ((kind == CB_REQ_BODY || kind == CB_RES_BODY || kind == CB_REQ_BODY_TX || kind == CB_RES_BODY_TX || kind == CB_REQ_FILE) && has_data && data == NULL && len == 0);   /* the PUT file hook mirrors the body hook, marker included */
     if (is_marker) {
         /* the end-of-body marker is produced by the completion step (after a trailer, if any); it only has to
          * precede the side's COMPLETE callback */
@@ -105,10 +105,15 @@ static void monitor_cb(hx_txrec *r, htp_tx_t *tx, int kind, const uint8_t *data,
             if (side == 1 && kind == CB_RES_LINE && r->last_status == 100 && r->rank[1] <= 2) {
                 /* documented restart after an interim 100 response */
             } else {
-                hx_verdict_add("C05", "order", "tx %d side %d: callback %c (rank %d) after rank %d; kinds so far %.*s",
+                /* "order_prior": the late data had already been received when the later phase was announced (bytes of an
+                 * unfinished block handed out afterwards); "order": it arrived after that point (bytes that follow the message) */
+                int64_t now = tx->connp ? (side ? tx->connp->out_stream_offset : tx->connp->in_stream_offset) : 0;
+                int prior = has_data && len > 0 && now - (int64_t) len < r->rank_pos[side];
+                hx_verdict_add("C05", prior ? "order_prior" : "order", "tx %d side %d: callback %c (rank %d) after rank %d; kinds so far %.*s",
                                ord, side, kind, rk, r->rank[side], (int) (r->kinds.n > 60 ? 60 : r->kinds.n), (const char *) r->kinds.p);
             }
         }
+        if (rk > r->rank[side] && tx->connp) r->rank_pos[side] = side ? tx->connp->out_stream_offset : tx->connp->in_stream_offset;
         r->rank[side] = rk;
     }
     switch (kind) {
@@ -124,6 +129,10 @@ static void monitor_cb(hx_txrec *r, htp_tx_t *tx, int kind, const uint8_t *data,
             if (tx->request_entity_len != r->body_len[0])
                 hx_verdict_add("C06", "req_entity_len", "tx %d request_entity_len=%lld but %lld body bytes were delivered", ord,
                                (long long) tx->request_entity_len, (long long) r->body_len[0]);
+            /* without a content coding every delivered body byte was taken from the wire as a body byte */
+            if (tx->request_content_encoding <= HTP_COMPRESSION_NONE && tx->request_message_len < tx->request_entity_len)
+                hx_verdict_add("C06", "req_message_len_short", "tx %d request_message_len=%lld < request_entity_len=%lld although no content coding was removed", ord,
+                               (long long) tx->request_message_len, (long long) tx->request_entity_len);
             if ((tx->request_transfer_coding == HTP_CODING_IDENTITY || tx->request_transfer_coding == HTP_CODING_CHUNKED)
                 && r->end_markers[0] < 1 && r->n_req_complete == 1)
                 hx_verdict_add("C06", "req_no_end_marker", "tx %d request has a body (coding %d) but no end-of-body marker before REQUEST_COMPLETE", ord, tx->request_transfer_coding);
@@ -133,6 +142,9 @@ static void monitor_cb(hx_txrec *r, htp_tx_t *tx, int kind, const uint8_t *data,
             if (tx->response_entity_len != r->body_len[1])
                 hx_verdict_add("C06", "res_entity_len", "tx %d response_entity_len=%lld but %lld body bytes were delivered", ord,
                                (long long) tx->response_entity_len, (long long) r->body_len[1]);
+            if (tx->response_content_encoding_processing <= HTP_COMPRESSION_NONE && tx->response_message_len < tx->response_entity_len)
+                hx_verdict_add("C06", "res_message_len_short", "tx %d response_message_len=%lld < response_entity_len=%lld although no content coding was removed", ord,
+                               (long long) tx->response_message_len, (long long) tx->response_entity_len);
             if ((tx->response_transfer_coding == HTP_CODING_IDENTITY || tx->response_transfer_coding == HTP_CODING_CHUNKED)
                 && r->end_markers[1] < 1 && r->n_res_complete == 1)
                 hx_verdict_add("C06", "res_no_end_marker", "tx %d response has a body (coding %d) but no end-of-body marker before RESPONSE_COMPLETE", ord, tx->response_transfer_coding);
